@@ -36,7 +36,7 @@ FAKE_GO = r"""#!/bin/sh
 [ "$1" = tool ] && [ "$2" = objdump ] && [ -n "$3" ] || exit 2
 if [ -n "$FAKE_K" ]; then head -c "$FAKE_K" "$FAKE_LISTING"; else cat "$FAKE_LISTING"; fi
 case "$FAKE_MODE" in
-fail) exit 3 ;;
+fail) exit "${FAKE_RC:-3}" ;;
 sig*) kill -s "${FAKE_MODE#sig}" $$ ; sleep 5 ;;
 hang) : > "$FAKE_MARK"; exec sleep 60 ;;
 esac
@@ -227,7 +227,7 @@ class ProfEnv:
                 pass
         self.created.clear()
 
-    def run(self, binpath, args, listing, mode="ok", k=None, missing=False, fsize=None, kill=False, expect_size=None, unstartable=None, tmpdir=None):
+    def run(self, binpath, args, listing, mode="ok", k=None, missing=False, fsize=None, kill=False, expect_size=None, unstartable=None, tmpdir=None, rc=None):
         """One execution of the real profiler. mode: ok | fail (tool exits 3 after k bytes) ; kill: the tool emits k bytes
         and hangs, the profiler is killed with SIGKILL once the copy goroutine has consumed them."""
         with self.lock:
@@ -241,6 +241,8 @@ class ProfEnv:
         env["FAKE_LISTING"] = listing
         env["FAKE_MODE"] = "hang" if kill else mode
         env["FAKE_K"] = "" if k is None else str(k)
+        if rc is not None:
+            env["FAKE_RC"] = str(rc)
         mark = os.path.join(os.path.dirname(binpath), "mark")
         env["FAKE_MARK"] = mark
         if os.path.exists(mark):
@@ -394,6 +396,10 @@ def c17_histories(rng, tier, total_of, small_of):
     for k in [0, 1, small_of // 2, small_of - 1, small_of]:
         hs.append(dict(first=[dict(kind="kill", k=k)], small=True))
         hs.append(dict(first=[dict(kind="fail", k=k)], small=True))
+    # every class of exit status a tool can end with (1, 2: ordinary; 126, 127: shell "cannot execute" / "not found"; 128 and
+    # 128+n: shell convention for signals; 255)
+    for rc_ in (1, 2, 125, 126, 127, 128, 129, 137, 143, 254, 255):
+        hs.append(dict(first=[dict(kind="fail", k=rng.choice([0, 3000, big]), rc=rc_)]))
     hs.append(dict(first=[dict(kind="ok")], small=True))
     hs.append(dict(first=[dict(kind="missing")]))
     # the tool dies from a signal after part of its output (no exit status at all)
@@ -443,6 +449,8 @@ def c17_histories(rng, tier, total_of, small_of):
             kind = rng.choice(["kill", "fail", "fsize", "missing", "ok2", "unstartable"])
             if kind == "kill" or kind == "fail":
                 steps.append(dict(kind=kind, k=rng.choice(ks)))
+                if kind == "fail" and rng.random() < 0.5:
+                    steps[-1]["rc"] = rng.choice([1, 2, 126, 127, 128, 129, 137, 255])
             elif kind == "fsize":
                 steps.append(dict(kind="fsize", lim=rng.choice(lims)))
             elif kind == "ok2":
@@ -536,7 +544,7 @@ def c17_run_history(env, hist, an, L):
             r = env.run(binpath, args, lp, k=k, kill=True, expect_size=exp, tmpdir=tmpdir)
             toks.append("K %d %s %d ok 1 @%s:0:%d" % (pid, xhex(hsh), i + 1, lname, k))
         elif kind == "fail":
-            r = env.run(binpath, args, lp, mode=("sig" + st["sig"]) if st.get("sig") else "fail", k=st["k"], tmpdir=tmpdir)
+            r = env.run(binpath, args, lp, mode=("sig" + st["sig"]) if st.get("sig") else "fail", k=st["k"], tmpdir=tmpdir, rc=st.get("rc"))
             toks.append("C %d %s %d fail 1 @%s:0:%d" % (pid, xhex(hsh), i + 1, lname, st["k"]))
         elif kind == "missing":
             r = env.run(binpath, args, lp, missing=True, tmpdir=tmpdir)
